@@ -243,6 +243,11 @@ func GenGroup(r *gen.R, b *Block, kind, n int, ids *idCounter, o GenOpts) *Group
 				if o.Full && len(x.Tags) == 0 {
 					x.Tags = []Tag{{"k" + r.Word(), "v" + r.Word()}}
 				}
+				// runs of identically tagged nodes (a row of trees, the posts of a fence):
+				// equal tag lists must still be separate lists
+				if !o.Full && len(d.Nodes) > 0 && len(d.Nodes[len(d.Nodes)-1].Tags) > 0 && r.Chance(0.3) {
+					x.Tags = append([]Tag(nil), d.Nodes[len(d.Nodes)-1].Tags...)
+				}
 			}
 			d.Nodes = append(d.Nodes, x)
 		}
